@@ -64,6 +64,7 @@ pub fn exec_line(line: &str) -> Option<String> {
         Some("u8") => Some(utf8::exec_line(line)),
         Some("find") => Some(related::exec_line(line)),
         Some("txt") => Some(textops::exec_line(line)),
+        Some("rx") => Some(textops::exec_rx(line)),
         Some("dv") => Some(data::exec_line(line)),
         Some("ql") => Some(stamql::exec_line(line)),
         Some("wj") => Some(webanno::exec_line(line)),
